@@ -169,6 +169,14 @@ THEOREMS += ["IwModel.C06." + t for t in (
     "links_slevels", "linkinv_empty", "find_bounds_chute", "linkinv_insert", "linkinv_remove", "linkinv_history",
     "linkinv_iff_threading", "links_refine_nodes", "linkinv_audit_clean", "history_image_audits_clean")]
 
+MANIFEST["text"] += ("; the link clause is also proved inductively on an explicit-link model of one database (head links, tail link, counters; "
+                     "per node lvl, n[0..lvl], p0) that executes _lx_find_bounds and the link surgery of _lx_split_addkv / _lx_del_sblk_lw: "
+                     "LinkInv holds for a new database and is kept by every insertion (any position, any level) and every removal, hence by every "
+                     "history (linkinv_*), the model agrees with the node model of C01 on the level sequence (links_refine_nodes) and an image with "
+                     "its link fields passes levelErrs/linkErrs/tailOk (linkinv_audit_clean); after every put/delete of generated histories the "
+                     "model is compared, position by position and level by level, with the links read from the real file")
+MANIFEST["note"] += ("; link model: block numbers abstract (comparison by position in the level-0 chain), key comparison is an oracle fixed by the "
+                     "position the node model routes to; non-WAL images only")
 LINK_LEVELS = [0, 0, 1, 1, 2, 2, 3, 4, 5, 6]
 
 
@@ -329,7 +337,7 @@ def link_stream(ctx, h, drv, n, nbulk, nwaves, label, cursors=False):
         if p[0] == "diverge":
             pending.append((c, p[1] - 1, "links: model/implementation diverge at op %d `%s`: impl `%s` model `%s`" % (p[1], c.ops[p[1]][:100], p[2][:160], p[3][:160])))
         else:
-            ctx.fail(c01.signature(c, p), dict(ops=c.ops, detail=p[1:]), str(p[1])[:400])
+            ctx.fail(dict(c01.signature(c, p), stream="links-cur" if cursors else "links"), dict(ops=c.ops, detail=p[1:]), str(p[1])[:400])
     if not drv:
         flush()
         return
